@@ -1,5 +1,8 @@
 mod util;
 mod c13;
+mod spec;
+mod pcorr;
+mod c01;
 mod c04;
 mod c14;
 mod c20;
@@ -35,6 +38,7 @@ fn main() {
     util::quiet_panics();
     let rep = match prop.as_str() {
         "C13" => c13::run(&o),
+        "C01" => c01::run(&o),
         "C04" => c04::run(&o),
         "C14" => c14::run(&o),
         "C20" => c20::run(&o),
